@@ -58,6 +58,8 @@ where
     let num_nodes = the_graph.number_of_nodes();
     let mut centralities = HashMap::new();
     let parallel = graph.number_of_nodes() > 20 && rayon::current_num_threads() > 1;
+    #[cfg(feature = "verif_hooks")]
+    let parallel = crate::verif_hooks::parallel_override().unwrap_or(parallel);
     match parallel {
         true => {
             let results: Vec<(T, f64)> = (0..the_graph.number_of_nodes())
